@@ -16,6 +16,11 @@ BINOPS = ["op.Add({0}, {1})", "op.Mul({0}, {1})", "op.Sub({0}, {1})", "{0} + {1}
 UNOPS = ["op.Neg({0})", "op.Abs({0})", "op.Relu({0})", "op.Identity({0})", "{0} * K0", "op.Add({0}, KARR)", "{0} + 1.0"]
 
 
+# operators introduced after opset 15, with the version that introduced them
+OPLIKE = [("Gelu", 20), ("Mish", 18), ("LayerNormalization", 17), ("RMSNormalization", 23), ("BitwiseAnd", 18),
+          ("Gelu", 20), ("GroupNormalization", 18), ("Attention", 23)]
+
+
 def _names(rng: Rng, n: int) -> list[str]:
     pool = list(NAME_STEMS)
     rng.shuffle(pool)
@@ -57,6 +62,19 @@ def gen_script(rng: Rng, tag: str) -> dict:
         "",
     ]
     use_module_consts = rng.chance(0.35)
+    # a helper function named like an ONNX operator that the script's own opset version does not have yet (users do name
+    # helpers "Gelu" or "LayerNormalization"): name look-ups shared between the front end and the model passes
+    oplike = None
+    if rng.chance(0.15):
+        oplike, intro = rng.choice(OPLIKE)
+        ver = rng.randint(15, min(23, intro - 1))
+        lines[4] = f"from onnxscript.onnx_opset import opset{ver} as op"
+        oplike_style = rng.choice(["own_domain", "polyfill", "polyfill", "premature_use"])
+        if oplike_style != "premature_use":
+            # "polyfill": the helper is declared as a member of the standard opset object itself (@script(op))
+            lines += ["@script(op)" if oplike_style == "polyfill" else "@script()",
+                      f"def {oplike}(p: FLOAT['N'], q: FLOAT['N']) -> FLOAT['N']:",
+                      f"    return {rng.choice([b for b in BINOPS if b.startswith('op.')]).format('p', 'q')}", ""]
     use_helper = rng.chance(0.5)
     if use_helper:
         # helpers live in a small set of custom domains at different versions: Opset objects are
@@ -130,6 +148,10 @@ def gen_script(rng: Rng, tag: str) -> dict:
         body.append(f"{ind}{v} = {_expr(rng, ['x', 'y'] + vs[:i])}")
     if use_helper:
         body.append(f"{ind}{vs[0]} = helper_{tag}({vs[0]}, x)")
+    if oplike and oplike_style == "premature_use":
+        body.append(f"{ind}{vs[-1]} = op.{oplike}({vs[-1]})")   # an operator this opset version does not have: refused
+    elif oplike:
+        body.append(f"{ind}{vs[-1]} = {oplike}({vs[-1]}, y)")
     for j, mid in enumerate(mids):
         tgt = vs[j % len(vs)]
         body.append(f"{ind}{tgt} = {mid}({tgt}, {rng.choice(['x', 'y'])})")
@@ -215,7 +237,7 @@ def gen_script(rng: Rng, tag: str) -> dict:
     if rng.chance(0.3):
         body.insert(0, f'{ind}"""{rng.choice(["Generated model function.", "Main entry: combines the carried variables."])}"""')
     lines += [dec, f"def {fname}(x: FLOAT['N'], y: FLOAT['N']) -> FLOAT['N']:"] + body + [f"{ind}return {ret}", ""]
-    return {"src": "\n".join(lines), "fns": [fname], "tag": tag}
+    return {"src": "\n".join(lines), "fns": [fname], "tag": tag, "oplike": oplike}
 
 
 # scripts the decorator must refuse, each in a stable way
